@@ -162,6 +162,11 @@ func c07RestCases() []c07Case {
 		add("query-two-members-of-a-oneof", "Pure", "/v1/pure/n", "pv.oneof_double_value=1.5&pv.oneof_enum_value=ENUM_VALUE", "", nil)
 		add("query-two-members-of-a-oneof", "Pure", "/v1/pure/n", "pv.oneofEnumValue=ENUM_VALUE&pv.oneof_double_value=1.5", "", nil)
 		add("query-three-spellings-interleaved", "Pure", "/v1/pure/n", "tags=a&extra_text=x&tags=b&extraText=y&num=1&num=2", "", nil)
+		// ... also when two names of the same storage alternate (a b a): grouping the values by name
+		// is not "the order in which they stand"
+		add("query-same-field-two-names-alternating", "Pure", "/v1/pure/n", "extra_text=first&extraText=second&extra_text=third", "", nil)
+		add("query-same-repeated-field-two-names-alternating", "Pure", "/v1/pure/n", "pv.double_list=1&pv.doubleList=2&pv.double_list=3", "", nil)
+		add("query-two-members-of-a-oneof-alternating", "Pure", "/v1/pure/n", "pv.oneof_double_value=1.5&pv.oneof_enum_value=ENUM_VALUE&pv.oneofDoubleValue=2.5", "", nil)
 	}
 	add("query-names-path-variable", "Pure", "/v1/pure/from-path", "name=from-query", "", nil)
 	add("query-names-path-variable-and-more", "Pure", "/v1/pure/from-path", "num=3&name=from-query&name=second", "", nil)
